@@ -14,6 +14,15 @@ BASELINE_OFF = ('cd /repo && env -u ELECTRUMX_VERIF /venv/bin/python -m pytest -
 _IDX_NOTE = ('Trusted: the fake plyvel stand-in (bound to real LevelDB by the conformance run), '
              'the reference indexer; only the default schedule is used here (schedules: C06/C07).')
 CHECKS = {
+    'C17': ('exploration',
+            'exhaustive enumeration of header-range triples and of MAX_SEND x history-length configurations over the wire',
+            'On a really indexed chain of 2,020 blocks: block.headers for every (start, count, cp) around '
+            '0, the 2016 cap and the chain end, checked against the reference headers and merkle '
+            'proofs; get_history / subscribe cold and cached for histories of limit-1..limit+2 entries '
+            'under six MAX_SEND settings and three request orders; a subscribed history outgrowing '
+            'the limit.  A reply is the complete history or the error, never a truncation.',
+            'Exactly at the derived limit either outcome is accepted if consistent; fake plyvel stand-in.',
+            '3/C17'),
     'C16': ('exploration',
             'exhaustive enumeration of method x argument tuples over a JSON alphabet, over the wire into real sessions',
             'All 24 protocol methods x the full product of a 54-value index-aware JSON alphabet for '
